@@ -1275,11 +1275,11 @@ class SSHConnection(SSHPacketHandler, asyncio.Protocol):
             trusted_x509_subjects, revoked_x509_subjects = \
                 match_known_hosts(known_hosts, host, addr, port)
 
-        assert self._trusted_host_keys is not None
+        # Only trust the keys matching this host, not those of hosts
+        # looked up earlier on this connection
+        self._trusted_host_keys = set(trusted_host_keys)
 
         for key in trusted_host_keys:
-            self._trusted_host_keys.add(key)
-
             if key.algorithm not in self._trusted_host_key_algs:
                 self._trusted_host_key_algs.extend(key.sig_algorithms)
 
